@@ -626,4 +626,192 @@ theorem verifyRRset_spec (c : SigCaps) (sigs : List (Nat × Option Nat)) (used s
     | verified => simp only; omega
     | work kk => simp only; omega
 
+/-! ### DNSSEC: the DS walk -/
+
+theorem dsCands_spec (anch : Bool) (candCap budget : Nat) (hit : Option Nat) (rem i spent : Nat) (m : Bool) :
+    let r := dsCands true anch candCap budget hit rem i spent m
+    spent ≤ r.1 ∧ r.1 - spent ≤ candCap - i ∧ r.1 - spent ≤ rem ∧ (spent ≤ budget → r.1 ≤ budget) := by
+  induction rem generalizing hit i spent m with
+  | zero => simp [dsCands]
+  | succ n ih =>
+    simp only [dsCands]
+    by_cases h1 : candCap ≤ i
+    · simp [h1]
+    · by_cases h2 : budget ≤ spent
+      · simp [h1, h2]
+      · by_cases h4 : hit = some i
+        · subst h4
+          simp only [h1, h2, decide_false, Bool.and_false, Bool.false_eq_true, if_false, if_true]
+          cases anch
+          · simp only [Bool.false_eq_true, if_false]
+            omega
+          · simp only [if_true]
+            have := ih (some i) (i + 1) (spent + 1) true
+            simp only at this
+            omega
+        · simp only [h1, h2, h4, decide_false, Bool.and_false, Bool.false_eq_true, if_false]
+          have := ih hit (i + 1) (spent + 1) m
+          simp only at this
+          omega
+
+theorem dsWalk_spec (anch : Bool) (candCap budget : Nat) (recs : List (Nat × Option Nat)) (spent : Nat) (any : Bool) :
+    let r := dsWalk true anch candCap budget recs spent any
+    spent ≤ r.1 ∧ (spent ≤ budget → r.1 ≤ budget) := by
+  induction recs generalizing spent any with
+  | nil => simp [dsWalk]
+  | cons x t ih =>
+    obtain ⟨k, hit⟩ := x
+    simp only [dsWalk]
+    have h := dsCands_spec anch candCap budget hit k 0 spent false
+    simp only at h
+    generalize dsCands true anch candCap budget hit k 0 spent false = r at h
+    obtain ⟨s, mm, e⟩ := r
+    simp only at h
+    cases e with
+    | some e => simp only; omega
+    | none =>
+      cases mm with
+      | true =>
+        simp only
+        cases anch
+        · simp only [Bool.false_eq_true, if_false]; omega
+        · simp only [if_true]
+          have := ih s true
+          simp only at this
+          omega
+      | false =>
+        simp only
+        have := ih s any
+        simp only at this
+        omega
+
+/-! ### the request-lifetime pin: one budget per tree -/
+
+theorem debit_enforce_spec (p : Policy) (hm : p.mode = .enforce) (sh : Shared) (k : Kind) (latch : Bool)
+    (hk : k.isAggregate = true) :
+    (sh.ctr.get k < p.caps.get k → (debit p sh k latch).2 = .ok ∧
+        (debit p sh k latch).1.ctr = sh.ctr.set k (sh.ctr.get k + 1)) ∧
+    (p.caps.get k ≤ sh.ctr.get k → (debit p sh k latch).2 = .limit k (p.caps.get k) ∧
+        (debit p sh k latch).1.ctr = sh.ctr) := by
+  have hen : p.enabled = true := by simp [Policy.enabled, hm]
+  constructor
+  · intro hlt
+    have h1 : ¬ (sh.ctr.get k ≥ p.caps.get k) := by omega
+    simp [debit, lrun, lstep, hen, hk, hm, h1, setPC, resultOf]
+  · intro hge
+    have h1 : sh.ctr.get k ≥ p.caps.get k := hge
+    simp [debit, lrun, lstep, hen, hk, hm, h1, setPC, resultOf]
+
+theorem debit_local (p : Policy) (sh : Shared) (k : Kind) (latch : Bool) (hk : k.isAggregate = false) :
+    debit p sh k latch = (sh, .ok) := by
+  simp [debit, lrun, lstep, hk, setPC, resultOf]
+
+/-- what a sequential enforce-mode debit of `k'` does to the counter of `k` and what it returns. -/
+theorem debit_enforce_cases (p : Policy) (hm : p.mode = .enforce) (sh : Shared) (k k' : Kind) (latch : Bool) :
+    ((debit p sh k' latch).2 = .ok ∧ k' = k ∧ k.isAggregate = true ∧ sh.ctr.get k < p.caps.get k ∧
+        (debit p sh k' latch).1.ctr.get k = sh.ctr.get k + 1) ∨
+    ((k' ≠ k ∨ (debit p sh k' latch).2 ≠ .ok ∨ k.isAggregate = false) ∧
+        (debit p sh k' latch).1.ctr.get k = sh.ctr.get k) := by
+  by_cases hagg : k'.isAggregate = true
+  · have sp := debit_enforce_spec p hm sh k' latch hagg
+    by_cases hlt : sh.ctr.get k' < p.caps.get k'
+    · obtain ⟨h1, h2⟩ := sp.1 hlt
+      by_cases e : k' = k
+      · subst e
+        left
+        exact ⟨h1, rfl, hagg, hlt, by rw [h2, KTab.get_set_same]⟩
+      · right
+        refine ⟨Or.inl e, ?_⟩
+        rw [h2, KTab.get_set_ne _ _ _ _ (fun x => e x.symm)]
+    · obtain ⟨h1, h2⟩ := sp.2 (by omega)
+      right
+      refine ⟨Or.inr (Or.inl (by rw [h1]; simp)), by rw [h2]⟩
+  · have hl := debit_local p sh k' latch (by simpa using hagg)
+    right
+    by_cases e : k' = k
+    · subst e
+      exact ⟨Or.inr (Or.inr (by simpa using hagg)), by rw [hl]⟩
+    · exact ⟨Or.inl e, by rw [hl]⟩
+
+def pinCtr : Pin → Kind → Nat
+  | .live sh, k => sh.ctr.get k
+  | _, _ => 0
+
+theorem finish_ctr (p : Policy) (sh : Shared) : (finish p sh).ctr = sh.ctr := by
+  unfold finish release
+  split
+  · rfl
+  · simp only
+    split <;> rfl
+
+theorem pin_budget (p : Policy) (hm : p.mode = .enforce) (k : Kind) (hk : k.isAggregate = true)
+    (ops : List PinOp) (pin : Pin) (h : pinCtr pin k ≤ p.caps.get k) :
+    pinAccepted k ops (pinRun p pin ops).2 + pinCtr pin k ≤ p.caps.get k := by
+  have hen : p.enabled = true := by simp [Policy.enabled, hm]
+  induction ops generalizing pin with
+  | nil => simp [pinAccepted]; exact h
+  | cons op t ih =>
+    cases op with
+    | finish =>
+      cases pin with
+      | pending => simp only [pinRun, pinStep, pinAccepted]; have := ih .closed (by simp [pinCtr]); simpa [pinCtr] using this
+      | closed => simp only [pinRun, pinStep, pinAccepted]; have := ih .closed (by simp [pinCtr]); simpa [pinCtr] using this
+      | live sh =>
+        simp only [pinRun, pinStep, pinAccepted]
+        have := ih (.live (finish p sh)) (by simpa [pinCtr, finish_ctr] using h)
+        simpa [pinCtr, finish_ctr] using this
+    | debit k' latch =>
+      -- the ledger the debit runs against, and the pin it leaves
+      have key : ∀ sh : Shared, sh.ctr.get k ≤ p.caps.get k →
+          ∀ (mk : Shared → Pin), (∀ s, pinCtr (mk s) k = s.ctr.get k) →
+          pinAccepted k (.debit k' latch :: t)
+            ((match debit p sh k' latch with
+              | (s, .ok) => (mk s, PinRes.ok)
+              | (s, .limit a b) => (mk s, PinRes.limit a b)).2 ::
+             (pinRun p (match debit p sh k' latch with
+              | (s, .ok) => (mk s, PinRes.ok)
+              | (s, .limit a b) => (mk s, PinRes.limit a b)).1 t).2) + sh.ctr.get k ≤ p.caps.get k := by
+        intro sh hsh mk hmk
+        have hc := debit_enforce_cases p hm sh k k' latch
+        generalize debit p sh k' latch = d at hc
+        obtain ⟨s, r⟩ := d
+        simp only at hc
+        cases r with
+        | ok =>
+          simp only [pinAccepted]
+          rcases hc with ⟨_, e, _, hlt, hs⟩ | ⟨hne, hs⟩
+          · have := ih (mk s) (by rw [hmk]; omega)
+            rw [hmk] at this
+            simp only [e, if_true]
+            omega
+          · have := ih (mk s) (by rw [hmk]; omega)
+            rw [hmk] at this
+            rcases hne with hne | hne | hne
+            · simp only [hne, if_false]; omega
+            · exact absurd rfl hne
+            · rw [hk] at hne; cases hne
+        | limit a b =>
+          simp only [pinAccepted]
+          have hs : s.ctr.get k = sh.ctr.get k := by
+            rcases hc with ⟨h1, _⟩ | ⟨_, hs⟩
+            · cases h1
+            · exact hs
+          have := ih (mk s) (by rw [hmk]; omega)
+          rw [hmk] at this
+          omega
+      cases pin with
+      | closed =>
+        simp only [pinRun, pinStep, pinAccepted]
+        have := ih .closed (by simp [pinCtr])
+        simpa [pinCtr] using this
+      | pending =>
+        simp only [pinRun, pinStep, hen, if_true]
+        have hk0 := key {} (by simp [KTab.get_const]) Pin.live (fun s => rfl)
+        have e0 : ({} : Shared).ctr.get k = 0 := by simp [KTab.get_const]
+        rw [e0] at hk0
+        exact hk0
+      | live sh =>
+        simp only [pinRun, pinStep]
+        exact key sh h Pin.live (fun s => rfl)
+
 end SdnsVerif.Lemmas.Work
